@@ -119,7 +119,7 @@ Section R.
     r_len st < big -> r_pos st = start + off ->
     A <> 0 -> (r_pos0 st + start) mod A = 0 -> (forall x, In x l -> A mod galign (gsig x) = 0) ->
     starts st (concat (gparts e l off) ++ b) ->
-    exists st', struct_loop (gde fuel) read_last start w (map gsig l) st (r_len st) 0 acc = Ok (frev acc ++ l, st') /\
+    exists st', struct_loop (gde fuel) read_last_checked start w (map gsig l) st (r_len st) 0 acc = Ok (frev acc ++ l, st') /\
                 r_pos st' = r_pos st + len (concat (gparts e l off)) /\ r_len st' = r_len st.
   Proof.
     induction 1 as [|x l Hx Hl IH]; intros fuel st start w off acc b A Hfuel He Hw Hp Hfx Hd Hf Hlen Hpos HA Hal Hdiv Hst.
@@ -203,7 +203,7 @@ Section R.
       apply negb_false_iff, N.eqb_eq in Hnt. unfold pad. rewrite Hnt. cbn. now rewrite app_nil_r. }
     rewrite Hgvb in *. set (data := concat (gparts e l 0)) in *.
     set (p := padn (r_pos0 st + r_pos st) A).
-    unfold gde. rewrite (gde_gen_struct read_last f st sigs Hs). rewrite Hs, Hal.
+    unfold gde. rewrite (gde_gen_struct read_last_checked f st sigs Hs). rewrite Hs, Hal.
     rewrite <- app_assoc in Hst. rewrite (gparse_padding_starts st A _ Hst). cbn [bind]. fold p.
     apply starts_after_pad in Hst. fold p in Hst.
     assert (Hal2 : (r_pos0 (adv st p) + r_pos (adv st p)) mod A = 0).
@@ -476,7 +476,7 @@ Section R.
     destruct (inc_array_good _ Hd Hf1 Hf2) as (d' & Hinc & Hdec & Hd' & Hs' & Ha' & Ht').
     rewrite gvb_array in Hst. cbv zeta in Hst. rewrite Hfx in Hst. set (data := concat (gparts e l 0)) in *.
     set (p := padn (r_pos0 st + r_pos st) (galign el)).
-    unfold gde. rewrite (gde_gen_array read_last f st el Hs). rewrite Hs, Hal.
+    unfold gde. rewrite (gde_gen_array read_last_checked f st el Hs). rewrite Hs, Hal.
     rewrite (gparse_padding_starts st (galign el) _ (holds_starts _ _ Hst)). cbn [bind]. fold p.
     apply holds_after_pad in Hst. fold p in Hst.
     assert (Hal2 : (r_pos0 (adv st p) + r_pos (adv st p)) mod galign el = 0).
@@ -684,7 +684,7 @@ Section R.
     { rewrite len_app in Hsmall. subst F. rewrite len_framing in Hsmall. subst ends. rewrite length_ends_from in Hsmall.
       pose proof (offset_width_pos (len data) (N.of_nat (length ps))) as Hw1.
       change (2 ^ 60) with 1152921504606846976 in Hsmall. nia. }
-    unfold gde. rewrite (gde_gen_array read_last f st el Hs). rewrite Hs, Hal.
+    unfold gde. rewrite (gde_gen_array read_last_checked f st el Hs). rewrite Hs, Hal.
     rewrite (gparse_padding_starts st (galign el) _ (holds_starts _ _ Hst)). cbn [bind]. fold p.
     apply holds_after_pad in Hst. fold p in Hst.
     assert (Hal2 : (r_pos0 (adv st p) + r_pos (adv st p)) mod galign el = 0).
@@ -737,6 +737,15 @@ Section R.
     now rewrite DeCompleteFacts.le_val_le_bytes.
   Qed.
 
+  Lemma read_last_checked_at st a b w o X t : 1 <= w -> a + w <= b ->
+    o < 2 ^ (8 * N.of_nat (N.to_nat w)) ->
+    r_rest st = X ++ le_bytes (N.to_nat w) o ++ t -> r_pos st + len X + w = b ->
+    read_last_checked st a b w = Ok o.
+  Proof.
+    intros Hw Hab Ho Hr Hb. unfold read_last_checked. destruct (N.ltb_spec (b - a) w); [lia|]. rewrite andb_false_r.
+    now apply (read_last_at st a b w o X t).
+  Qed.
+
   Lemma struct_loop_var l : Forall rt l -> l <> [] -> forall fuel st start w off ol acc R A,
     (gheights l <= fuel)%nat -> r_e st = e -> forallb gwf l = true -> forallb (pre e) l = true -> forallb rtok l = true ->
     dep_ok (r_dep st) -> forallb (gdepth_ok (d_struct (r_dep st)) (d_array (r_dep st)) (dtot (r_dep st))) l = true ->
@@ -746,7 +755,7 @@ Section R.
     Forall (fun o => o < 2 ^ (8 * N.of_nat (N.to_nat w))) toffs ->
     r_rest st = concat ps ++ offs_enc w (rev toffs) ++ R ->
     r_pos st + len (concat ps) + w * N.of_nat (length toffs) + ol = r_len st ->
-    exists st', struct_loop (gde fuel) read_last start w (map gsig l) st
+    exists st', struct_loop (gde fuel) read_last_checked start w (map gsig l) st
                   (r_pos st + len (concat ps) + w * N.of_nat (length toffs)) ol acc = Ok (frev acc ++ l, st') /\
                 r_pos st' = r_len st.
   Proof.
@@ -821,7 +830,7 @@ Section R.
         set (end_ := r_pos st + (len px + len (concat ps')) + w * N.of_nat (S (length toffs'))) in *.
         assert (Hend_le : end_ <= r_len st) by lia.
         destruct (N.ltb_spec end_ start); [lia|]. destruct (N.ltb_spec (r_len st) end_); [lia|]. cbn [orb].
-        rewrite (read_last_at st start end_ w (off + len px) (px ++ concat ps' ++ offs_enc w (rev toffs')) R); try assumption; try lia.
+        rewrite (read_last_checked_at st start end_ w (off + len px) (px ++ concat ps' ++ offs_enc w (rev toffs')) R); try assumption; try lia.
         2:{ rewrite Hrest. now rewrite <- !app_assoc. }
         2:{ rewrite !len_app, len_offs_enc, rev_length. subst end_. lia. }
         cbn [bind]. destruct (N.ltb_spec end_ w); [subst end_; lia|]. cbn [bind].
@@ -888,7 +897,7 @@ Section R.
     assert (Hsm : len data + 8 * k <= 18446744073709551615).
     { rewrite len_app, HlenF in Hsmall. change (2 ^ 60) with 1152921504606846976 in Hsmall. nia. }
     set (p := padn (r_pos0 st + r_pos st) A).
-    unfold gde. rewrite (gde_gen_struct read_last f st sigs Hs). rewrite Hs, Hal.
+    unfold gde. rewrite (gde_gen_struct read_last_checked f st sigs Hs). rewrite Hs, Hal.
     rewrite (gparse_padding_starts st A _ (holds_starts _ _ Hst)). cbn [bind]. fold p.
     apply holds_after_pad in Hst. fold p in Hst.
     assert (Hal2 : (r_pos0 (adv st p) + r_pos (adv st p)) mod A = 0).
@@ -1386,7 +1395,7 @@ Section R.
     rewrite gvb_dict in Hst, Hsmall. cbv zeta in Hst, Hsmall.
     set (ps := geparts e ks vs l 0) in *. set (data := concat ps) in *.
     set (p := padn (r_pos0 st + r_pos st) al).
-    unfold gde. rewrite (gde_gen_dict read_last f st ks vs Hs). rewrite Hs, Hal.
+    unfold gde. rewrite (gde_gen_dict read_last_checked f st ks vs Hs). rewrite Hs, Hal.
     rewrite (gparse_padding_starts st al _ (holds_starts _ _ Hst)). cbn [bind]. fold p.
     apply holds_after_pad in Hst. fold p in Hst.
     assert (Hal2 : (r_pos0 (adv st p) + r_pos (adv st p)) mod al = 0).
